@@ -307,7 +307,7 @@ Definition parse_opk (ts : list tok) : option (option N * opk * list tok) :=
 (** run the ops of a case, emitting one observation line per observed op;
     [7 b] switches observation on/off (switching on emits the current state);
     [fuel] bounds the number of ops (the token count is enough) *)
-Fixpoint run_ops (query : state2 -> list tok) (fuel : nat) (obs : bool) (st : state2) (ts : list tok) : list (list tok) :=
+Fixpoint run_ops (query : Z -> state2 -> list tok) (fuel : nat) (obs : bool) (st : state2) (ts : list tok) : list (list tok) :=
   match fuel with
   | O => []
   | S f =>
@@ -317,7 +317,13 @@ Fixpoint run_ops (query : state2 -> list tok) (fuel : nat) (obs : bool) (st : st
       if (b =? 0)%Z then run_ops query f false st rest
       else (dump_result (ROk 0) ++ dump2 st) :: run_ops query f true st rest
     | TZ 8 :: rest =>
-      if obs then (dump_result (ROk 0) ++ query st) :: run_ops query f obs st rest
+      if obs then (dump_result (ROk 0) ++ query 8%Z st) :: run_ops query f obs st rest
+      else run_ops query f obs st rest
+    | TZ 11 :: rest =>       (* serialize: the lexed text *)
+      if obs then (dump_result (ROk 0) ++ query 11%Z st) :: run_ops query f obs st rest
+      else run_ops query f obs st rest
+    | TZ 12 :: rest =>       (* serialize, rebuild, serialize again *)
+      if obs then (dump_result (ROk 0) ++ query 12%Z st) :: run_ops query f obs st rest
       else run_ops query f obs st rest
     | _ =>
       match parse_opk ts with
@@ -332,7 +338,7 @@ Fixpoint run_ops (query : state2 -> list tok) (fuel : nat) (obs : bool) (st : st
   end.
 
 (** case = mask n0 op* ; the initial map is CMapBuilder::from_n_darts(n0) with the masked kinds *)
-Definition run_case2 (query : state2 -> list tok) (ts : list tok) : list (list tok) :=
+Definition run_case2 (query : Z -> state2 -> list tok) (ts : list tok) : list (list tok) :=
   match ts with
   | TZ mask :: TZ n0 :: rest =>
       let st := empty2 (zN n0) (kinds_of_mask (zN mask)) in
